@@ -239,15 +239,26 @@ def run_lm1(ctx):
                 acc, new, st = tis.retis_swap_zero({-1: {"ens": e0, "traj": p0}, 0: {"ens": e1, "traj": p1}},
                                                    {-1: [eng0], 0: [eng1]})
                 return bool(acc), st, eng0.n_propagate + eng1.n_propagate, new[0] is p0 and new[1] is p1
+            accepted_somewhere = False
             for ch, (acc, st, nprop, same) in explore(fn):
                 n += 1
                 ctx.distinct(("lm1", name, acc, st, nprop > 0))
+                rp = dict(kind="lm1", s0=list(s0), s1=list(s1), choices=ch.choices)
                 if name.endswith("->L"):
-                    if acc or nprop != 0:
+                    if acc or nprop != 0 or st != "0-L" or not same:
                         ctx.violation("lm1:left-ending-not-rejected-early",
-                                      f"[0-] {s0} ended left: accept={acc} status={st} propagate calls={nprop}",
-                                      dict(kind="lm1", s0=list(s0), s1=list(s1), choices=ch.choices))
+                                      f"[0-] {s0} ended left: accept={acc} status={st} propagate calls={nprop} inputs returned={same}", rp)
                         return n
+                else:
+                    accepted_somewhere = accepted_somewhere or acc
+                    if st == "0-L" or nprop == 0:
+                        ctx.violation("lm1:right-ending-rejected-as-left",
+                                      f"[0-] {s0} ended right of lambda_0 but the swap was refused with status {st} after {nprop} propagate calls", rp)
+                        return n
+            if name.endswith("->R") and not accepted_somewhere:
+                ctx.violation("lm1:right-ending-never-accepted", f"[0-] {s0} with [0+] {s1}: no engine outcome leads to an accepted swap",
+                              dict(kind="lm1", s0=list(s0), s1=list(s1), choices=[]))
+                return n
     return n
 
 
